@@ -82,6 +82,11 @@ class Batching:
                 return
             inside = cur_leaves + wip_leaves + in_leaves
             seq = self.emitted[b] + inside
+            scrapped = getattr(log, 'scrapped', None)
+            if scrapped:
+                # (units the user took out of a lot that was still being unpacked never leave; nothing else changes)
+                self.arrived[b] = [u for u in self.arrived[b] if u not in scrapped]
+                ctx.count('batcher_checks_after_a_scrapped_lot')
             if seq != self.arrived[b]:
                 k = next((i for i in range(min(len(seq), len(self.arrived[b]))) if seq[i] != self.arrived[b][i]),
                          min(len(seq), len(self.arrived[b])))
@@ -156,4 +161,5 @@ class Batching:
 
     def features(self):
         # an input batch split across two output batches: arrivals not aligned with emissions
-        return {'batcher_outputs': self.outputs, 'empty_inputs': self.empty_inputs}
+        return {'batcher_outputs': self.outputs, 'empty_inputs': self.empty_inputs,
+                'lots_scrapped_during_a_hand_over': getattr(self.m.log, 'scrap_events', 0)}
